@@ -470,6 +470,9 @@ func genChild(r *rand.Rand, depth int) *El {
 	if r.Intn(12) == 0 {
 		k.Local = "c"
 	}
+	if r.Intn(14) == 0 {
+		k.Space = "" // a payload in no namespace (xmlns=''): only its local name, and the type wildcard, can match it
+	}
 	if r.Intn(4) == 0 {
 		k.Text = []string{"hello", "a<b&c", " ", "é"}[r.Intn(4)]
 	}
